@@ -43,6 +43,8 @@ def cases(tier, seed):
     struct = [c for c in out if c['part'] == 'structured']
     out += [{'part': 'session', 'cfgs': [dict(c, pair_cap=20) for c in seq]}
             for seq in session.interleave_by_size(struct, 2)]
+    out += [{'part': 'session', 'cfgs': [dict(c, pair_cap=20) for c in seq]}
+            for seq in session.across_classes(struct)]
     return out
 
 
